@@ -285,22 +285,62 @@ struct Exec {
         MASA::masa_list_mms<S>();
     });
     if (unexpected(co, prop, "list_mms")) return false;
+    // Format-tolerant reading of the listing: a "count" line if there is one, and one line per registered handle that
+    // names the handle and, as a whole word, the catalogue name of its solution.  Nothing else about the text is assumed.
     std::vector<std::string> lines = split_lines(co.out);
-    std::multiset<std::string> got, want;
     long count = -1;
+    std::vector<std::string> entries;  // lines that mention a catalogue name as a whole word
+    auto mentions = [](const std::string& l, const std::string& word) {
+      size_t pos = 0;
+      while ((pos = l.find(word, pos)) != std::string::npos) {
+        bool lb = pos == 0 || !(isalnum((unsigned char)l[pos - 1]) || l[pos - 1] == '_');
+        size_t e = pos + word.size();
+        bool rb = e >= l.size() || !(isalnum((unsigned char)l[e]) || l[e] == '_');
+        if (lb && rb) return true;
+        ++pos;
+      }
+      return false;
+    };
     for (const std::string& l : lines) {
       size_t p = l.find("Number of initialized solutions:");
-      if (p != std::string::npos) count = atol(l.c_str() + p + strlen("Number of initialized solutions:"));
-      else if (l.find(" : ") != std::string::npos) got.insert(l);
+      if (p != std::string::npos) {
+        count = atol(l.c_str() + p + strlen("Number of initialized solutions:"));
+        continue;
+      }
+      for (const Sol& sl : g_sols)
+        if (mentions(l, sl.name)) {
+          entries.push_back(l);
+          break;
+        }
     }
-    for (auto& kv : R.m) want.insert(kv.first + " : " + g_sols[kv.second.sol].name);
-    if (count != (long)R.m.size() || got != want) {
-      std::string g;
-      for (auto& s : got) g += "[" + s + "]";
-      std::string w;
-      for (auto& s : want) w += "[" + s + "]";
-      viol(prop, tag, "list", "masa_list_mms reports count=" + std::to_string(count) + " " + g + " but the registry holds " +
-                                  std::to_string(R.m.size()) + " " + w);
+    std::vector<char> used(entries.size(), 0);
+    std::string missing;
+    // longest handles first, so that a handle that is a substring of another one cannot steal its line
+    std::vector<std::pair<std::string, std::string>> want;
+    for (auto& kv : R.m) want.push_back(std::make_pair(kv.first, g_sols[kv.second.sol].name));
+    std::sort(want.begin(), want.end(), [](const std::pair<std::string, std::string>& a, const std::pair<std::string, std::string>& b) {
+      return a.first.size() != b.first.size() ? a.first.size() > b.first.size() : a < b;
+    });
+    for (auto& w : want) {
+      bool found = false;
+      // prefer the exact documented shape "<handle> : <name>", then any line naming both
+      for (int pass = 0; pass < 2 && !found; ++pass)
+        for (size_t i = 0; i < entries.size() && !found; ++i) {
+          if (used[i]) continue;
+          bool ok = pass == 0 ? entries[i] == w.first + " : " + w.second : (mentions(entries[i], w.second) && entries[i].find(w.first) != std::string::npos);
+          if (ok) {
+            used[i] = 1;
+            found = true;
+          }
+        }
+      if (!found) missing += "[" + w.first + " : " + w.second + "]";
+    }
+    std::string extra;
+    for (size_t i = 0; i < entries.size(); ++i)
+      if (!used[i]) extra += "[" + entries[i] + "]";
+    if ((count >= 0 && count != (long)R.m.size()) || !missing.empty() || !extra.empty()) {
+      viol(prop, tag, "list", "masa_list_mms reports count=" + std::to_string(count) + (missing.empty() ? "" : ", does not list " + missing) + (extra.empty() ? "" : ", lists " + extra + " which is not registered") +
+                                  "; the registry holds " + std::to_string(R.m.size()) + " handle(s)");
       return false;
     }
     return true;
@@ -664,7 +704,9 @@ void Exec::do_init(const Step& st, const Client& cl, const std::string& handle, 
   if (same_sol && simseam::alloc_active()) {
     // C19 (iii): replacing an instance by a fresh one of the same type never needs more memory
     orc_eval("C19");
-    if (bytes1 - bytes0 > 0)
+    // a replaced instance that is not released is a whole solution object (>= 2 KB); small bookkeeping is not the
+    // property's business, so the threshold is well below the smallest object and well above a map node
+    if (bytes1 - bytes0 > 512)
       viol("C19", "C19.growth.reinit", g_sols[solidx].name,
            "re-initialising an existing handle with the same solution grew live library memory by " + std::to_string(bytes1 - bytes0) + " bytes");
   }
